@@ -24,6 +24,24 @@ EXTENDS N2KBits, N2KDb
 Positioned(f) == f.off >= 0 /\ f.len >= 0
 Code(f, bytes) == Slice(bytes, f.off, f.len)
 
+\* Running offsets (python.PGNs.j2: running_bit_offset).  A field without BitOffset starts where the previous one
+\* ended; a STRING_LAU field occupies as many bytes as its first byte says (length and type byte included); after
+\* a field whose extent the payload does not determine here (KEY_VALUE, variable BINARY, unsupported types) the
+\* positions are unknown (-1) and only metadata is judged.
+ByteAtBit(bytes, o) == IF o % 8 = 0 /\ o \div 8 + 1 <= Len(bytes) THEN bytes[o \div 8 + 1] ELSE 0
+RECURSIVE EffOffR(_, _, _, _)
+EffOffR(d, bytes, k, running) ==
+  IF k > Len(d.fields) THEN <<>>
+  ELSE LET f == d.fields[k]
+           here == IF f.off >= 0 THEN f.off ELSE running
+           next == IF here < 0 THEN -1
+                   ELSE IF f.kind = "strlau" THEN here + 8 * ByteAtBit(bytes, here) + (IF f.len >= 0 THEN f.len ELSE 0)
+                   ELSE IF f.kind \in {"keyvalue", "ftlookup", "unsupported"} \/ (f.kind = "bin" /\ f.len < 0) THEN -1
+                   ELSE IF f.len >= 0 THEN here + f.len ELSE here
+       IN <<here>> \o EffOffR(d, bytes, k + 1, next)
+EffOff(d, bytes) == EffOffR(d, bytes, 1, 0)
+At(f, o) == [f EXCEPT !.off = o]
+
 \* the "not available" pattern: all ones, or 0111..1 for two's complement fields of 4+ bits
 Sentinel(f, code) ==
   IF f.twos /\ f.len >= 4
@@ -88,6 +106,25 @@ StrFixVerdict(f, bytes, ov, tag) ==
     IF ~StrClean(bs) \/ f.off % 8 # 0 \/ f.len % 8 # 0 THEN "ok"
     ELSE IF ov.k = "str" /\ ov.cp = StrText(bs) THEN "ok" ELSE tag \o ".text"
 
+\* STRING_LAU: [length incl. the two header bytes][1 = ASCII/UTF-8, 0 = UTF-16][text]; judged for single-byte text
+LauBytes(bytes, off) ==
+  LET n == ByteAtBit(bytes, off) IN
+    [k \in 1..(IF n > 2 THEN n - 2 ELSE 0) |-> ByteAtBit(bytes, off + 8 * (k + 1))]
+StrLauVerdict(f, bytes, ov, tag) ==
+  LET n == ByteAtBit(bytes, f.off)
+      txt == LauBytes(bytes, f.off)
+  IN IF f.off % 8 # 0 \/ (f.off \div 8) + 2 > Len(bytes) THEN "ok"               \* no room for the header: not judged
+     ELSE IF ByteAtBit(bytes, f.off + 8) # 1 \/ \E k \in 1..Len(txt) : txt[k] >= 128 \/ txt[k] = 0 THEN "ok"
+     ELSE IF (f.off \div 8) + n > Len(bytes) THEN "ok"                            \* runs past the payload: not judged
+     ELSE IF ov.k = "str" /\ ov.cp = txt THEN "ok" ELSE tag \o ".lau-text"
+\* STRING_LZ: [length][text][0]
+StrLzVerdict(f, bytes, ov, tag) ==
+  LET n == ByteAtBit(bytes, f.off)
+      txt == [k \in 1..n |-> ByteAtBit(bytes, f.off + 8 * k)]
+  IN IF f.off % 8 # 0 \/ (f.off \div 8) + 1 + n > Len(bytes) THEN "ok"
+     ELSE IF \E k \in 1..n : txt[k] >= 128 THEN "ok"
+     ELSE IF ov.k = "str" /\ ov.cp = txt THEN "ok" ELSE tag \o ".lz-text"
+
 BinVerdict(code, ov, tag) ==
   IF ov.k = "bytes" /\ ov.mag = Trim(code) THEN "ok" ELSE tag \o ".bytes"
 
@@ -128,6 +165,11 @@ ValueVerdict(f, bytes, of) ==
       [] f.kind = "indirect"  -> IntVerdict(code, of.r, "raw")
       [] OTHER                -> "ok"
 
+VarValueVerdict(f, bytes, of) ==
+  CASE f.kind = "strlau" -> First(StrLauVerdict(f, bytes, of.v, "value"), StrLauVerdict(f, bytes, of.r, "raw"))
+    [] f.kind = "strlz"  -> First(StrLzVerdict(f, bytes, of.v, "value"), StrLzVerdict(f, bytes, of.r, "raw"))
+    [] OTHER -> "ok"
+
 MetaVerdict(f, of) ==
   IF of.id # f.id THEN "meta.id"
   ELSE IF of.name # f.name THEN "meta.name"
@@ -140,7 +182,9 @@ MetaVerdict(f, of) ==
 \* KEY_VALUE fields take their metadata from the looked-up key: only the id is fixed
 FieldVerdict(f, bytes, of) ==
   IF f.kind = "keyvalue" THEN "ok"
-  ELSE First(MetaVerdict(f, of), IF Positioned(f) THEN ValueVerdict(f, bytes, of) ELSE "ok")
+  ELSE First(MetaVerdict(f, of),
+             IF f.kind \in {"strlau", "strlz"} THEN (IF f.off >= 0 THEN VarValueVerdict(f, bytes, of) ELSE "ok")
+             ELSE IF Positioned(f) THEN ValueVerdict(f, bytes, of) ELSE "ok")
 
 ----------------------------------------------------------------------------
 (* Selection of the definition (C08) *)
@@ -170,8 +214,19 @@ FieldInRange(f, bytes) ==
     [] OTHER -> TRUE
 
 AllInRange(d, bytes) ==
-  /\ d.decodable /\ d.static
-  /\ \A k \in 1..Len(d.fields) : FieldInRange(d.fields[k], bytes)
+  LET offs == EffOff(d, bytes) IN
+  /\ d.decodable
+  /\ \A k \in 1..Len(d.fields) : offs[k] >= 0 /\ FieldInRange(At(d.fields[k], offs[k]), bytes)
+  \* a variable-length binary field needs its length: the length field must not be "not available"
+  /\ \A k \in 1..Len(d.fields) :
+        (d.fields[k].kind = "bin" /\ d.fields[k].len < 0 /\ d.fields[k].lenField > 0) =>
+           LET lf == At(d.fields[d.fields[k].lenField], offs[d.fields[k].lenField]) IN
+             Positioned(lf) /\ ~Sentinel(lf, Code(lf, bytes))
+  \* strings must lie inside the payload (a well-formed payload)
+  /\ \A k \in 1..Len(d.fields) :
+        (d.fields[k].kind = "strlau" => (offs[k] % 8 = 0 /\ ByteAtBit(bytes, offs[k]) >= 2
+                                          /\ (offs[k] \div 8) + ByteAtBit(bytes, offs[k]) <= Len(bytes)))
+        /\ (d.fields[k].kind = "strlz" => (offs[k] % 8 = 0 /\ (offs[k] \div 8) + 1 + ByteAtBit(bytes, offs[k]) <= Len(bytes)))
 ----------------------------------------------------------------------------
 (* Encode side (C02, C09).  A requested number is described exactly by     *)
 (*   fl  = floor((value - Offset) / Resolution)   (sign-magnitude)         *)
